@@ -78,7 +78,37 @@ def len_le_one_guard(body, site, map_operand):
     return False
 
 
-def collect_then_sort(body, collect_bb):
+
+# calls a sort key / comparator may make without merging distinct elements
+KEY_PROJECTIONS = {"as_str", "as_ref", "deref", "borrow", "clone", "as_path", "to_owned", "to_string", "as_bytes", "as_os_str",
+                   "cmp", "partial_cmp", "then", "then_with", "reverse", "into", "from", "as_deref", "as_undecorated", "0", "1"}
+
+
+def sort_key_lossy(P, body, t):
+    """for sort_by_key / sort_by / sort_by_cached_key: a key or comparator that transforms the element (lower-casing,
+    length, prefix, ...) can make distinct elements compare equal; ties then keep the incoming (hash) order"""
+    if P is None or len(t["args"]) < 2:
+        return None
+    cb = None
+    a = t["args"][1]
+    if a.get("k") == "const" and a.get("closure"):
+        cb = P.bodies.get(norm(a["closure"]))
+    else:
+        for r in prov(body, a):
+            if r.kind == "closure":
+                cb = P.bodies.get(r.name)
+            elif r.kind == "agg" and r.name.startswith("closure:"):
+                cb = P.bodies.get(r.name[len("closure:"):])
+    if cb is None:
+        return None
+    for bb, ct in cb.calls():
+        nm = (callee_def(ct) or "?").rsplit("::", 1)[-1]
+        if nm not in KEY_PROJECTIONS:
+            return "sort key / comparator calls %s" % nm
+    return None
+
+
+def collect_then_sort(body, collect_bb, P=None):
     """the Vec produced at collect_bb is sorted before any other use (incl. being returned)"""
     def from_collect(o):
         rs = prov(body, o)
@@ -98,6 +128,9 @@ def collect_then_sort(body, collect_bb):
         if cn & mir._transparent():
             continue
         if cn & SORTS and from_collect(t["args"][0]):
+            why = sort_key_lossy(P, body, t)
+            if why:
+                return None   # a key that can tie leaves tied elements in hash order
             sorts.append(bb)
         else:
             others.append(bb)
@@ -144,7 +177,7 @@ def classify(P, o, cons, adts):
                                "std::collections::BTreeMap<", "std::collections::BTreeSet<")):
                 return "collected into a keyed container (" + tgt.split("<")[0].rsplit("::", 1)[-1] + ")"
             if tgt.startswith("std::vec::Vec<"):
-                return collect_then_sort(body, cons.bb)
+                return collect_then_sort(body, cons.bb, P)
         return None
     if kind == "next-once":
         t = body.term(o.bb)
